@@ -65,7 +65,7 @@ class NB:
         dist = self.draw(self.st.sampled_from(["uniform", "uniform", "sparse", "small"]))
         return dict(seed=seed, lo=lo, hi=hi, dist=dist)
 
-    def conv(self, x, kind="conv", force_pad=None, force_stride=None):
+    def conv(self, x, kind="conv", force_pad=None, force_stride=None, no_bias=False):
         d, st = self.draw, self.st
         X = self.info(x)
         n, h, w, c = X["shape"]
@@ -124,7 +124,7 @@ class NB:
             fields["DepthMultiplier"] = oc // c
             self.op("DEPTHWISE_CONV_2D", [x, wt, bt], [o], "DepthwiseConv2DOptions", fields, version=3)
         else:
-            self.op("CONV_2D", [x, wt, bt], [o], "Conv2DOptions", fields, version=3)
+            self.op("CONV_2D", [x, wt, bt] if not no_bias else [x, wt, -1], [o], "Conv2DOptions", fields, version=3)
         return o
 
     def tconv(self, x, force_stride=None):
@@ -560,7 +560,8 @@ def network(profile="exact", max_ops=6, dtypes=("int8", "int8", "int8", "uint8",
                 cur = nb.dequant_quant(cur, None, rich=draw(st.integers(1, 3)))
             elif kind == "unsupported_conv":
                 # a CONV_2D the NPU cannot take (stride 4 / batch 2 handled elsewhere): stays on the CPU with all its options
-                cur = nb.conv(cur, "conv", force_stride=(4, 4)) if r4 and X["shape"][1] >= 1 else nb.unary(cur, "RELU", same_q=True)
+                # the optional bias operand is sometimes left out (operand index -1): the operator stays on the CPU and must keep its operand list as it is
+                cur = nb.conv(cur, "conv", force_stride=(4, 4), no_bias=draw(st.booleans())) if r4 and X["shape"][1] >= 1 else nb.unary(cur, "RELU", same_q=True)
             elif kind == "unsupported_tconv":
                 cur = nb.tconv(cur, force_stride=draw(st.sampled_from([3, 4]))) if r4 and X["shape"][1] * X["shape"][2] <= 64 and X["dtype"] != "int16" else nb.unary(cur, "RELU", same_q=True)
             elif kind == "float_chain":
